@@ -18,8 +18,17 @@ func VerifC17Stacks() {
 		// equal names in different files
 		names = map[int]string{1: "f", 2: "f", 3: "g"}
 	}
+	opts := Options{}
+	shown := files
+	if vChoice("trimpath", 2) == 1 {
+		// two functions of the same name in files that -trim_path shows alike
+		names = map[int]string{1: "f", 2: "f", 3: "g"}
+		files = map[int]string{1: "/a/x.go", 2: "/b/x.go", 3: "/a/l.go"}
+		shown = map[int]string{1: "x.go", 2: "x.go", 3: "l.go"}
+		opts.TrimPath = "/a:/b"
+	}
 	vp := vBuild(shape, 1, names, files)
-	rpt := NewDefault(vp.p, Options{})
+	rpt := NewDefault(vp.p, opts)
 	ss := rpt.Stacks()
 	vReach("C17.stacks:built")
 
@@ -50,7 +59,13 @@ func VerifC17Stacks() {
 			src := ss.Sources[k]
 			vAssert(src.Inlined == inl[j], "C17.inlined: inlined flag wrong")
 			if f != 0 {
-				vAssert(src.FullName == names[f] && src.FileName == files[f], "C17.frame: frame name or file differs from the sample's frame")
+				vAssert(src.FullName == names[f] && src.FileName == shown[f], "C17.frame: frame name or file differs from the sample's frame")
+			}
+			// different functions are different sources, whatever their display
+			for j2, f2 := range ids {
+				if f2 != f && f2 != 0 && f != 0 {
+					vAssert(st.Sources[j2+1] != k, "C17.merged: two different functions share one source")
+				}
 			}
 		}
 	}
